@@ -10,7 +10,7 @@ import (
 
 func init() {
 	props["C01"] = &propCheck{
-		lean: []string{"JSight.Props.C01_Scanner", "JSight.Props.C02", "JSight.Props.C07", "JSight.Props.C08_Include"},
+		lean: []string{"JSight.Props.C01_Scanner", "JSight.Props.C01_Term", "JSight.Props.C02", "JSight.Props.C07", "JSight.Props.C08_Include"},
 		exes: []string{"jsight-scan"},
 		run:  runC01,
 		rule: "root files: all sequences up to the length bound over the 66-token scanner alphabet, sampled longer sequences, all fixture files and byte-level mutants of them, generated documents and mutants; projects: generated include graphs (empty, missing, directory, self-including, cyclic, diamond, deep) and macro graphs (chains, cycles of length 1..6, unused); every project is processed in a child process with a time limit; non-trivial = the scanner emits >= 2 lexemes or the project has >= 2 files; distinct = distinct project bytes",
